@@ -119,4 +119,24 @@ Proof.
     + exists evs. cbn. repeat split; try assumption; try lia.
 Qed.
 
+(* draining the iterator (Get; Next)* serves exactly the pending events *)
+Lemma wp_drain_ok : forall l fuel s, wp_rep s l -> (length l < fuel)%nat -> wp_drain fparse fuel s = Ok l.
+Proof.
+  induction l as [|r l IH]; intros fuel s HR Hf; (destruct fuel as [|f]; [cbn in Hf; lia|]); cbn [wp_drain].
+  - destruct (wp_law_eof s HR) as (s' & -> & _). reflexivity.
+  - destruct (wp_law_get s r l HR) as (s' & -> & _ & HRn).
+    rewrite (IH f (wp_next s') HRn) by (cbn in Hf; lia). reflexivity.
+Qed.
+
+(* the write packet: what the client encodes is what the server-side iterator serves, with the write-level
+   fields in front of the event's own fields *)
+Theorem packet_roundtrip tags flds evs wf fuel : len_ok tags -> len_ok flds -> count_ok evs -> Forall ae_ok evs ->
+  fparse flds = Ok wf -> (length evs < fuel)%nat ->
+  exists it, wp_init fparse (encode_wp tags flds evs) = Ok (tags, it) /\ wp_drain fparse fuel it = Ok (map (wp_levent wf) evs).
+Proof.
+  intros Ht Hf Hc Hok Hp Hfu. rewrite wp_init_encode by assumption. rewrite Hp. cbn [obind].
+  eexists. split; [reflexivity|]. apply wp_drain_ok; [|rewrite map_length; exact Hfu].
+  exists evs. cbn. repeat split; try assumption; try lia.
+Qed.
+
 End WithFieldParser.
